@@ -142,8 +142,14 @@ Proof.
       (apply pinv_move with (s := s) (w := w); auto; try reflexivity; rewrite ?Epc; cbn; auto; intros k Hk; split; auto; discriminate).
   - inv_some H. apply pinv_move with (s := s) (w := w); auto; try reflexivity; rewrite ?Epc; cbn; auto. intros k Hk; split; auto; discriminate.
   - (* WSerial *)
-    destruct (_ <? _)%N; inv_some H.
+    destruct (_ <? _)%N; [inv_some H|destruct (negb _); inv_some H].
     + apply pinv_move with (s := s) (w := w); auto; try reflexivity; rewrite ?Epc; cbn; auto. intros k Hk; split; auto; discriminate.
+    + (* the turn was skipped *)
+      apply pinv_move with (s := s) (w := w); auto; try reflexivity; rewrite ?Epc.
+      * unfold after_serial. destruct (negb (j_first _) && _); cbn [w_pc w_set_pc busyp]; [lia|].
+        pose proof (next_chunk_props cfg w (getj s (w_slot w)) (job_pay cfg s (getj s (w_slot w))) 1 ltac:(lia)) as (_ & A & _).
+        destruct (w_pc (next_chunk _ _ _ _ _)); try discriminate; cbn; lia.
+      * intros k Hk; split; auto; discriminate.
     + match goal with |- PInv cfg (set_w t ?w' ?s2) => assert (K2 : PInv cfg s2 /\ nth_error (ws s2) t = Some w) end.
       { destruct (_ && ldm (mt s)).
         - split; [apply pinv_wake_ldm; eapply pinv_ext; [..|apply pinv_wake_serial; exact P]; reflexivity|].
